@@ -13,6 +13,8 @@ def gen_legend(rng):
     n = rng.below(5)
     rows = ["# Legend:"]
     for _ in range(n):
+        if rng.chance(1, 6):
+            rows.append("")          # a blank line inside the legend (ends the entry list)
         pad = " " * rng.below(3)
         rows.append("%s%s%s=%s{%s}" % (pad, rng.choice(NAMES), " " * rng.below(2), " " * rng.below(2), rng.choice(DECL)))
     return "\n".join(rows)
